@@ -19,10 +19,10 @@ Require Import Model Spec Refine.
 Theorem C06_calls_refine_spec :
   forall (g funs : list (list nat * expr)) (ignored : option nat)
          (t : list nat) (rx : nat -> nat -> option nat),
-    (forall r ps b, nth_error g r = Some (ps, b) -> wf g funs ignored t rx ps b) ->
-    (forall fid ps b, nth_error funs fid = Some (ps, b) -> wf g funs ignored t rx ps b) ->
+    (forall r ps b, nth_error g r = Some (ps, b) -> wf ps b) ->
+    (forall fid ps b, nth_error funs fid = Some (ps, b) -> wf ps b) ->
     (forall r, ignored = Some r -> exists es, nth_error g r = Some ([], Skip es)) ->
-    forall n e sc E s, wf g funs ignored t rx sc e -> scope_of sc E -> sub E (locals s) ->
+    forall n e sc E s, wf sc e -> scope_of sc E -> sub E (locals s) ->
       match peg g funs ignored t rx n E e (pos s), exec true g funs ignored t rx n e s with
       | Fuel, OutOfFuel => True
       | Raise, _ => True
